@@ -648,7 +648,8 @@ def backoff_iter(start, stop, count=None, factor=2.0, jitter=False):
         raise ValueError('expected stop >= 0')
     if stop < start:
         raise ValueError('expected stop >= start, not %r' % stop)
-    if count is None:
+    auto_count = count is None
+    if auto_count:
         # a start of 0 is followed by min(1, stop), which is where
         # the geometric growth towards stop really begins
         denom = start if start else min(1.0, stop)
@@ -669,6 +670,9 @@ def backoff_iter(start, stop, count=None, factor=2.0, jitter=False):
             cur_ret = cur - (cur * jitter * random.random())
         yield cur_ret
         i += 1
+        if auto_count and i == count and cur < stop:
+            # the float log() above came out one short of reaching stop
+            count += 1
         if cur == 0:
             cur = 1
         elif cur < stop:
